@@ -17,7 +17,7 @@ use std::sync::Arc;
 use std::time::{Duration, Instant};
 
 pub trait Property {
-    type Plan: Serialize + DeserializeOwned + Clone;
+    type Plan: Serialize + DeserializeOwned + Clone + Send + Sync;
     const ID: &'static str;
     /// `exploration` or `fault_enumeration`.
     const LEVEL: &'static str;
@@ -85,16 +85,28 @@ fn plan_digest<P: Property>(plan: &P::Plan) -> u64 {
 }
 
 fn exec_guarded<P: Property>(plan: &P::Plan, st: &mut Stats) -> Option<Violation> {
-    // A panic inside the *harness* (not inside a guarded call into the code
-    // under test) must not take the worker down silently: report it as a
-    // harness error class, which the driver turns into exit 2.
-    match std::panic::catch_unwind(std::panic::AssertUnwindSafe(|| P::execute(plan, st))) {
-        Ok(v) => v,
-        Err(_) => Some(Violation { class: "HARNESS-PANIC".into(), detail: crate::exec::take_panic() }),
-    }
+    // Every run executes on a FRESH thread, so that thread-local state inside the
+    // code under test cannot leak from one run (one decoder instance) into the
+    // next: whether instances influence one another is C17's question, and a run's
+    // history must not depend on which runs the same worker executed before it.
+    //
+    // A panic inside the *harness* (not inside a guarded call into the code under
+    // test) must not take the worker down silently: it is reported as a harness
+    // error class, which the driver turns into exit 2.
+    std::thread::scope(|sc| {
+        let h = std::thread::Builder::new().stack_size(4 << 20).spawn_scoped(sc, || {
+            match std::panic::catch_unwind(std::panic::AssertUnwindSafe(|| P::execute(plan, st))) {
+                Ok(v) => v,
+                Err(_) => Some(Violation { class: "HARNESS-PANIC".into(), detail: crate::exec::take_panic() }),
+            }
+        });
+        match h {
+            Ok(h) => h.join().unwrap_or_else(|_| Some(Violation { class: "HARNESS-PANIC".into(), detail: "run thread died".into() })),
+            Err(e) => Some(Violation { class: "HARNESS-PANIC".into(), detail: format!("cannot spawn run thread: {e}") }),
+        }
+    })
 }
 
-/// Worker: runs `start, start+step, ...` below `end`; writes a WorkerOut file.
 /// Backstop for the machine, not an oracle: cap the worker's address space so
 /// that a decoder that mis-reads a size cannot take the host down.  An
 /// allocation failure aborts the worker, which the driver reports as
@@ -264,6 +276,7 @@ fn spawn_worker(prop: &str, tier: Tier, seed: u64, start: u64, step: u64, end: u
         .env("MALLOC_TRIM_THRESHOLD_", "1073741824")
         .env("MALLOC_TOP_PAD_", "67108864")
         .env("MALLOC_MMAP_THRESHOLD_", "1073741824")
+        .env("MALLOC_ARENA_MAX", "1")
         .stdin(Stdio::null())
         .stdout(Stdio::piped())
         .stderr(Stdio::inherit());
